@@ -564,6 +564,10 @@ def c_ikfree(case, ctx):
     for i in inds:
         ths[i] = th0[i] + frac * (move[i] - th0[i])
     eps = float(case["eps"])
+    if case.get("eps_rel") is not None:
+        # residual aimed BETWEEN the arm's two tolerances (their geometric mean times 0.03..30): where a solver that
+        # checks the wrong residual against the wrong tolerance gives a different verdict
+        eps = min(1e-2, math.sqrt(float(case["tol"]["pos"]) * float(case["tol"]["rot"])) * float(case["eps_rel"]))
     fixed = [i for i in range(m.n) if i not in inds]
     if eps > 0 and fixed:
         d = delta_vec(len(fixed), [case["delta"][i % len(case["delta"])] for i in fixed], eps)
@@ -691,6 +695,7 @@ S_IKFREE = st.fixed_dictionaries({
     "free": st.lists(st.booleans(), min_size=A.NMAX, max_size=A.NMAX),
     "frac": st.one_of(st.just(0.0), G.floats(0.0, 0.3), G.floats(0.0, 0.3), G.floats(0.0, 1.0)),
     "eps": st.one_of(st.just(0.0), G.log_uniform(1e-10, 1e-2), G.log_uniform(1e-6, 3e-3)),
+    "eps_rel": st.one_of(st.none(), G.log_uniform(0.03, 30.0)),
     "delta": DELTA, "pre_fk": st.booleans(), "seed": SEED})
 
 def half_turn_region(case, message):
@@ -705,5 +710,5 @@ CLAUSES = [
     Clause("unreachable_goal_is_failure", c_single, S_BEYOND, 250, 12000, region=half_turn_region),
     Clause("solve_history_coherent", c_history, S_HISTORY, 250, 12000, region=half_turn_region),
     Clause("local_convergence", c_local, S_LOCAL, 400, 24000, region=half_turn_region),
-    Clause("ikfree_success_meets_tol", c_ikfree, S_IKFREE, 300, 12000),
+    Clause("ikfree_success_meets_tol", c_ikfree, S_IKFREE, 500, 12000),
 ]
